@@ -268,12 +268,22 @@ static int fd_baseline = -1;
 static int fd_leak(void) {
   return count_fds() - fd_baseline - (hc >= 0 ? 1 : 0) - (scr->httpSock != RFB_INVALID_SOCKET ? 1 : 0);
 }
+/* watchdog: one request must not keep the (single-threaded) server busy for longer than this, real time */
+#define WATCHDOG_S 25
+static void on_alarm(int sig) {
+  static const char m[] = "HANG: the server did not return from serving one HTTP request within 25 s\n";
+  (void)sig;
+  if (write(2, m, sizeof m - 1) < 0) {}
+  if (write(1, "hang\n", 5) < 0) {}
+  _exit(4);
+}
 static unsigned char reqbuf[1 << 18];
 
 int main(void) {
   char *line, *tok[8];
   const char *root = getenv("VERIF_C20_TMP");
   signal(SIGPIPE, SIG_IGN);
+  signal(SIGALRM, on_alarm);
   if (!root || !*root) root = "/tmp";
   snprintf(base, sizeof base, "%s/verif-c20-%08d", root, (int)getpid());
   if (mkdirs(base) < 0) { fprintf(stderr, "cannot create %s\n", base); return 2; }
@@ -376,7 +386,14 @@ int main(void) {
       if (race) { hc2 = connect_unix(use6 ? lpath6 : lpath4); if (hc2 < 0) { puts("no-conn"); goto next; } }
       if (paint_n) { paint_stack(paint_byte, paint_n); paint_n = 0; }
       nc0 = newclients; vwait_us = 0; noplog = 0; logging = 1;
+      /* a server that keeps writing (spinning substitution loop) fills the socket: its wait for
+         writability is virtual, so the call comes back and the wait shows up in `wait=`; anything that
+         still does not come back is ended by the watchdog */
+      virtual_wsel = 1; vsel_fd = scr->httpSock; vsel_count = 0;
+      alarm(WATCHDOG_S);
       rfbProcessEvents(scr, 0);
+      alarm(0);
+      virtual_wsel = 0; vsel_fd = -1;
       logging = 0; nplan = iplan = 0; inject_reset = 0;
       for (i = 0; i < 2; i++) rfbProcessEvents(scr, 0);
       gone = full ? 1 : http_drain();
@@ -427,7 +444,9 @@ int main(void) {
       setsockopt(scr->httpSock, SOL_SOCKET, SO_SNDBUF, &one, sizeof one);
       if (write(hc, reqbuf, (size_t)len) != len) { puts("short-write"); goto next; }
       vwait_us = 0; vsel_count = 0; vsel_fd = scr->httpSock; virtual_wsel = 1; noplog = 0; logging = 1;
+      alarm(WATCHDOG_S);
       rfbProcessEvents(scr, 0);
+      alarm(0);
       logging = 0; virtual_wsel = 0; vsel_fd = -1;
       for (i = 0; i < noplog; i++) free(oplog[i]);
       printf("vstall=%lld sel=%d opened=%d conn=%s", vwait_us / 1000, vsel_count, noplog,
